@@ -153,7 +153,7 @@ def small_opt_program(r):
     objs = []
     x = r.random()
     if x < 0.45:
-        objs = [r.choice(['OMakespan', 'OFlowtime', 'OPriorities', 'OGreatestStart', 'OStartLatest', 'OStartEarliest'])]
+        objs = [r.choice(['OMakespan', 'OFlowtime', 'OPriorities', 'OGreatestStart', 'OStartLatest', 'OStartEarliest', 'ORawW'])]
     elif x < 0.7:
         objs = r.sample(['OMakespan', 'OFlowtime', 'OPriorities', 'OGreatestStart', 'ORawW'], 2)   # same direction (minimise)
     iid = 50
@@ -168,7 +168,7 @@ def small_opt_program(r):
     for o in objs:
         if o == 'ORawW':
             # the generic Objective on an expression, with a weight
-            ob = ('ORaw', terms.N(iid), ('TV', ('VEnd', terms.N(1))), terms.Z(r.choice([2, 3])), False)
+            ob = ('ORaw', terms.N(iid), ('TV', ('VEnd', terms.N(1))), terms.Z(r.choice([2, 3] if len(objs) > 1 else [2, 3, -1, -2, 0])), False)
         else:
             ob = (o,) if o in ('OMakespan', 'OPriorities', 'OStartEarliest') else (o, None)
         prog.append(('ONewObjective', ob, terms.N(iid)))
